@@ -102,8 +102,12 @@ def _split_tag(tag):
     return "", tag
 
 
-def et_to_sx(e, strip=True):
+def et_to_sx(e, strip=True, default_ns=""):
+    """default_ns: the namespace an element without one is read in (a math string is inserted under the
+    document's default namespace, CellML 2.0)"""
     ns, nm = _split_tag(e.tag)
+    if ns == "":
+        ns = default_ns
     ats = []
     for k, v in e.attrib.items():
         ans, anm = _split_tag(k)
@@ -117,7 +121,7 @@ def et_to_sx(e, strip=True):
         if callable(c.tag):        # comment / PI
             pass
         else:
-            kids.append(et_to_sx(c, strip))
+            kids.append(et_to_sx(c, strip, default_ns))
         tl = c.tail or ""
         if tl.strip(" \t\n\r"):
             kids.append("(t %s)" % S(tl.strip(" \t\n\r") if strip else tl))
@@ -154,7 +158,7 @@ def math_elems(s):
         out.append("(t %s)" % S(t.strip(" \t\n\r")))
     for c in root:
         if not callable(c.tag):
-            out.append(et_to_sx(c))
+            out.append(et_to_sx(c, True, CELLML))
         tl = c.tail or ""
         if tl.strip(" \t\n\r"):
             out.append("(t %s)" % S(tl.strip(" \t\n\r")))
@@ -280,10 +284,11 @@ def reset_fix(ent):
 def sort_canon(x):
     """canonical value -> the same with every child list sorted (content up to child order) and import tags dropped"""
     if isinstance(x, tuple) and x and x[0] == "M":
-        return ("M", x[1], x[2], x[3], tuple(sorted(sort_canon(u) for u in x[4])), tuple(sorted(sort_canon(c) for c in x[5])), x[6])
+        return ("M", x[1], x[2], x[3], tuple(sorted((sort_canon(u) for u in x[4]), key=repr)),
+                tuple(sorted((sort_canon(c) for c in x[5]), key=repr)), x[6])
     if isinstance(x, tuple) and x and x[0] == "U":
         s = x[3]
-        return ("U", x[1], x[2], None if s is None else (s[1], s[2]), x[4], tuple(sorted(x[5])))
+        return ("U", x[1], x[2], None if s is None else (s[1], s[2]), x[4], tuple(sorted(x[5], key=repr)))
     if isinstance(x, tuple) and x and x[0] == "C":
         s = x[4]
         return ("C", x[1], x[2], x[3], None if s is None else (s[1], s[2]), x[5], x[6], tuple(sorted(x[7], key=repr)),
@@ -447,6 +452,23 @@ def classify_known(ctx, ent0):
     has_h = any(len(c[9]) > 0 for c in ent0[5])
     if (unS(ent0[3]) and not has_h) or any(len(c[9]) == 0 and unS(c[3]) for c in ent0[5]):
         ids.append("C02-encapsulation-id-without-hierarchy")
+    # C02-imported-entity-local-content: an imported units with unit children, an imported component with math,
+    # resets, or a variable that is more than a name (or that no equivalence mentions)
+    connected = set()
+    for e in ent0[6]:
+        connected.add((e[1], e[2]))
+        connected.add((e[3], e[4]))
+
+    def local_content(c, path):
+        if c[4] != "-":
+            if unS(c[6]) or len(c[8]) > 0:
+                return True
+            for vi, v in enumerate(c[7]):
+                if unS(v[2]) or v[3] != "-" or unS(v[4]) or unS(v[5]) or (path, str(vi)) not in connected:
+                    return True
+        return any(local_content(k, path + "." + str(i)) for i, k in enumerate(c[9]))
+    if any(u[3] != "-" and len(u[5]) > 0 for u in ent0[4]) or any(local_content(c, str(i)) for i, c in enumerate(ent0[5])):
+        ids.append("C02-imported-entity-local-content")
     # C02-number-overflows-at-15-digits: a finite exponent / multiplier whose 15-digit text is beyond DBL_MAX
     for u in ent0[4]:
         for d in u[5]:
